@@ -526,7 +526,7 @@ def main(tier):
                        "and the final non-2.xx response are not judged",
                        "freshness is judged after a 400 s loss-free settle phase"]
     exe = build.ensure_world("asan")
-    total = 700 if tier == "quick" else 30000
+    total = 2000 if tier == "quick" else 30000
     chunk = 8
     jobs = [(list(range(i, min(total, i + chunk))), exe) for i in range(0, total, chunk)]
     stats = {}
